@@ -27,6 +27,7 @@ structure CUD (p : Path) (s s' : St) : Prop where
   lowers : s'.disk.lowers = s.disk.lowers
   upper : s'.disk.upper.isSome
   frame : ∀ p', ¬ p'.isSuffixOf p → s'.mem p' = s.mem p'
+  keep : ∀ p' m0, s.mem p' = some m0 → ∃ m1, s'.mem p' = some m1 ∧ m1.loaded = m0.loaded ∧ m1.kids = m0.kids
 
 /-- on failure -/
 structure CUDE (s s' : St) : Prop where
@@ -80,7 +81,7 @@ theorem cudStep_spec {s : St} (hc : Consistent s) (hu : s.disk.upper.isSome) (n 
     simp [childReal, realOf, nodeAt_setUpper _ _ _ hu, Node.isWhiteout, Node.isOpaqueDir]
   have hcons := upperDir_consistent hc hup n pp hpm hm hpu hmu hr hdir mode
     (s.log ++ [⟨0, Method.mkdir⟩])
-  refine ⟨_, ?_, ⟨hcons, ?_, ?_, ?_, ?_⟩, ?_⟩
+  refine ⟨_, ?_, ⟨hcons, ?_, ?_, ?_, ?_, ?_⟩, ?_⟩
   · have hq : realOf (s.disk.setUpper (n :: pp) (.dir mode 0 0)) (n :: pp) 0 =
         { layer := 0, inUpper := true, path := n :: pp, whiteout := false, opq := false } := by
       simp [realOf, nodeAt_setUpper _ _ _ hu, Node.isWhiteout, Node.isOpaqueDir]
@@ -96,6 +97,13 @@ theorem cudStep_spec {s : St} (hc : Consistent s) (hu : s.disk.upper.isSome) (n 
       intro h; subst h
       simp at hp'
     simp [Mem.set, this]
+  · intro p' m0 hm0
+    by_cases hp' : p' = n :: pp
+    · subst hp'
+      rw [hm] at hm0; cases hm0
+      exact ⟨{ m with whiteout := false, reals := realOf (s.disk.setUpper (n :: pp) (.dir mode 0 0)) (n :: pp) 0 :: m.reals },
+        by simp [Mem.set], rfl, rfl⟩
+    · exact ⟨m0, by simp [Mem.set, hp', hm0], rfl, rfl⟩
   · intro p' hp'
     simp [Mem.set, hp']
 
@@ -142,7 +150,7 @@ theorem createUpperDir_spec : ∀ (p : Path) (s : St), Consistent s → s.disk.u
       by_cases hd : (s.disk.statReal r).isDir = true
       · by_cases hmu : m.inUpper = true
         · simp [Outcome, bind, M.bind, getNode, hm, hst, hd, hmu, pure, M.pure]
-          exact ⟨hc, ⟨m, hm, hmu⟩, rfl, hu, fun _ _ => rfl⟩
+          exact ⟨hc, ⟨m, hm, hmu⟩, rfl, hu, fun _ _ => rfl, fun p' m0 h => ⟨m0, h, rfl, rfl⟩⟩
         · simp [Outcome, bind, M.bind, getNode, hm, hst, hd, hmu, fail]
           exact ⟨hc, rfl, hu⟩
       · simp [Outcome, bind, M.bind, getNode, hm, hst, hd, fail]
@@ -165,7 +173,7 @@ theorem createUpperDir_spec : ∀ (p : Path) (s : St), Consistent s → s.disk.u
         by_cases hd : (s.disk.statReal r).isDir = true
         · by_cases hmu : m.inUpper = true
           · simp [Outcome, bind, M.bind, getNode, hm, hst, hd, hmu, pure, M.pure]
-            exact ⟨hc, ⟨m, hm, hmu⟩, rfl, hu, fun _ _ => rfl⟩
+            exact ⟨hc, ⟨m, hm, hmu⟩, rfl, hu, fun _ _ => rfl, fun p' m0 h => ⟨m0, h, rfl, rfl⟩⟩
           · simp only [Bool.not_eq_true] at hmu
             obtain ⟨pm, hpm, _⟩ := hc.reach n pp m hm
             have hrl := real_lower hc hm hr hmu
@@ -200,16 +208,24 @@ theorem createUpperDir_spec : ∀ (p : Path) (s : St), Consistent s → s.disk.u
                 rw [nodeAt_of_lowers hlow hrl]; exact hd
               obtain ⟨s2, hs2, hcud, hfr⟩ := cudStep_spec hc1 hu1 n pp hpm1 hm1 hpu1 hmu hr hdir1 (s.disk.statReal r).mode
               rw [hs2]
-              refine ⟨hcud.cons, hcud.up, by rw [hcud.lowers, hlow], hcud.upper, ?_⟩
-              intro p' hp'
-              have hne : p' ≠ n :: pp := by
-                intro h; subst h; simp at hp'
-              rw [hfr p' hne]
-              rcases h1 with h | ⟨h, _⟩
-              · apply h.frame
-                intro hsuf
-                exact hp' (isSuffixOf_trans_cons n hsuf)
-              · rw [h]
+              refine ⟨hcud.cons, hcud.up, by rw [hcud.lowers, hlow], hcud.upper, ?_, ?_⟩
+              · intro p' hp'
+                have hne : p' ≠ n :: pp := by
+                  intro h; subst h; simp at hp'
+                rw [hfr p' hne]
+                rcases h1 with h | ⟨h, _⟩
+                · apply h.frame
+                  intro hsuf
+                  exact hp' (isSuffixOf_trans_cons n hsuf)
+                · rw [h]
+              · intro p' m0 hm0
+                have : ∃ m1, s1.mem p' = some m1 ∧ m1.loaded = m0.loaded ∧ m1.kids = m0.kids := by
+                  rcases h1 with h | ⟨h, _⟩
+                  · exact h.keep p' m0 hm0
+                  · exact ⟨m0, by rw [h]; exact hm0, rfl, rfl⟩
+                obtain ⟨m1, hm1', hl1, hk1⟩ := this
+                obtain ⟨m2, hm2', hl2, hk2⟩ := hcud.keep p' m1 hm1'
+                exact ⟨m2, hm2', by rw [hl2, hl1], by rw [hk2, hk1]⟩
             by_cases hpu : pm.inUpper = true
             · have := key s (Or.inr ⟨rfl, hpu⟩)
               simpa [Outcome, bind, M.bind, getNode, hm, hst, hd, hmu, hpm, whenM, hpu, pure, M.pure] using this
@@ -355,7 +371,7 @@ theorem copyFileUp_spec {s : St} (hc : Consistent s) (hu : s.disk.upper.isSome) 
       intro s3 ⟨L3, hd3, hsh, hstp⟩ hm3
       have hfinal := consistent_sameShape hA (L := L.set (n :: pp) X) (L' := L3)
         (by simp [Disk.setUpper, hup, Disk.setLayer]) hsh hstp []
-      refine ⟨hfinal.congr ?_ ?_, ?_, ?_, ?_, ?_⟩
+      refine ⟨hfinal.congr ?_ ?_, ?_, ?_, ?_, ?_, ?_⟩
       · rw [hd3, hdisk2]
       · rw [hm3, hmem2, hnodeEq]
       · exact ⟨_, by rw [hm3]; simp [Mem.set], hupAt⟩
@@ -366,6 +382,18 @@ theorem copyFileUp_spec {s : St} (hc : Consistent s) (hu : s.disk.upper.isSome) 
         rw [hm3, hmem2]
         simp only [Mem.set, if_neg hne]
         exact hframe1 p' hp'
+      · intro p' m0 hm0
+        have h1' : ∃ m1, s1.mem p' = some m1 ∧ m1.loaded = m0.loaded ∧ m1.kids = m0.kids := by
+          rcases h1 with h | ⟨h, _⟩
+          · exact h.keep p' m0 hm0
+          · exact ⟨m0, by rw [h]; exact hm0, rfl, rfl⟩
+        obtain ⟨m1, hm1', hl1, hk1⟩ := h1'
+        rw [hm3, hmem2]
+        by_cases hp' : p' = n :: pp
+        · subst hp'
+          rw [hm1] at hm1'; cases hm1'
+          exact ⟨addUpperNode m (childReal pr n) true, by simp [Mem.set], hl1, hk1⟩
+        · exact ⟨m1, by simp [Mem.set, hp', hm1'], hl1, hk1⟩
     have hL2 : s2.disk.layer 0 = some (L.set (n :: pp) X) := by
       rw [hdisk2]; simp [Disk.setUpper, hup, Disk.layer, Disk.setLayer]
     have hm2q : s2.mem (n :: pp) = some m := by rw [hmem2]; exact hm1
